@@ -43,7 +43,7 @@ const rule = "a case is one history: 1-3 resources (identifiers with/without dir
 	"flag changes, Index.AutoDownload changes, Purge(keep -1..5), ScanStorage, GetSelectedVersions, AddResource with an invalid version}; after every operation the exported registry " +
 	"state (versions+flags, selected, active), GetVersion, the results of GetFile/Blacklist and the storage directory listing are compared with the reference model. " +
 	"distinct = distinct operation scripts; every history is non-trivial (at least one selection is compared). " +
-	"Plus file-name cases: generated (identifier, version) pairs / versioned paths of the documented format, both round-trip directions"
+	"Plus file-name cases: generated (identifier, version) pairs / versioned paths of the documented format (marker in the file name; directory components free, including version-like text equal to, extending or differing from the file's marker), both round-trip directions"
 
 func main() {
 	if dir, ok := vlib.IsChild(); ok {
@@ -94,6 +94,8 @@ func main() {
 			"blacklist accepted=%d refused-last=%d", rep.Counter("blacklist_accepted"), rep.Counter("blacklist_refused_last_version"))
 		rep.Floor(rep.Counter("getfile_local") >= q(2000, 40000) && rep.Counter("getfile_not_available") >= q(40, 800) && rep.Counter("getfile_downloaded") >= q(50, 1000),
 			"getfile local=%d not-available=%d downloaded=%d", rep.Counter("getfile_local"), rep.Counter("getfile_not_available"), rep.Counter("getfile_downloaded"))
+		rep.Floor(rep.Counter("name_dir_contains_file_version_marker") >= q(2000, 20000) && rep.Counter("name_dir_contains_other_version_marker") >= q(2000, 20000),
+			"identifiers whose directory holds the file's version marker=%d, another marker=%d", rep.Counter("name_dir_contains_file_version_marker"), rep.Counter("name_dir_contains_other_version_marker"))
 		rep.Floor(rep.Counter("name_roundtrips") >= q(20000, 200000), "name round trips=%d", rep.Counter("name_roundtrips"))
 	}
 	rep.Assume("reference model = the selection order, the definition of 'selectable', the additive flag semantics of AddVersion and the blacklist guard as documented in updater/resource.go and registry.go and in the property statement; own version parser/comparator (numeric segments, release > pre-release, tags lexical)")
